@@ -78,33 +78,33 @@ Section Laws.
   Proof. intros alpha [A|]; reflexivity. Qed.
 
   (* Transpose of the output: the operands swap AND the flags swap sides *)
-  Theorem matmul_transpose_right : forall alpha tA tB (x y : mat),
-    omeq F (mmt_pattern F o alpha tA tB x y) (mmt_rewrite_right F o alpha tA tB x y).
+  Theorem matmul_transpose_sound : forall alpha tA tB (x y : mat),
+    omeq F (mmt_pattern F o alpha tA tB x y) (mmt_rewrite_code F o alpha tA tB x y).
   Proof.
-    intros. unfold mmt_pattern, mmt_rewrite_right, fused.
+    intros. unfold mmt_pattern, mmt_rewrite_code, fused.
     rewrite !op_negb_tr, !op_tr_comm, tr_scale. apply scale_cong, mm_tr.
   Qed.
 
-  (* the rewrite as written in MatMulTranspose.rewrite is the right one exactly when the two flags are equal
+  (* the rewrite as it was before the fix was right exactly when the two flags are equal
      (in particular for a plain MatMul, where both are 0) *)
-  Theorem matmul_transpose_code_sound : forall alpha t (x y : mat),
-    omeq F (mmt_pattern F o alpha t t x y) (mmt_rewrite_code F o alpha t t x y).
-  Proof. intros. apply matmul_transpose_right. Qed.
+  Theorem matmul_transpose_old_sound_equal_flags : forall alpha t (x y : mat),
+    omeq F (mmt_pattern F o alpha t t x y) (mmt_rewrite_old F o alpha t t x y).
+  Proof. intros. apply matmul_transpose_sound. Qed.
 End Laws.
 
 (* ... and wrong otherwise: over the integers (only ring operations are involved), transA = 1, transB = 0,
    x : 1x2, y : 1x1 -- the pattern yields a 1x2 matrix, the rewritten node multiplies 1x1 by 2x1: an error. *)
 From Coq Require Import ZArith.
 Definition z_ops : fops Z := mk_fops Z 0%Z 1%Z Z.add Z.mul Z.sub Z.opp Z.div (fun x => x).
-Theorem matmul_transpose_code_refuted : exists (alpha : Z) (tA tB : bool) (x y : mat Z),
-  ~ omeq Z (mmt_pattern Z z_ops alpha tA tB x y) (mmt_rewrite_code Z z_ops alpha tA tB x y).
+Theorem matmul_transpose_old_refuted : exists (alpha : Z) (tA tB : bool) (x y : mat Z),
+  ~ omeq Z (mmt_pattern Z z_ops alpha tA tB x y) (mmt_rewrite_old Z z_ops alpha tA tB x y).
 Proof.
   exists 1%Z, true, false, (mk_mat Z 1 2 (fun _ j => Z.of_nat (S j))), (mk_mat Z 1 1 (fun _ _ => 3%Z)).
   vm_compute. auto.
 Qed.
 (* a witness with square operands, where the rewritten node runs but returns other numbers *)
-Theorem matmul_transpose_code_refuted_square : exists (x y : mat Z),
-  match mmt_pattern Z z_ops 1%Z true false x y, mmt_rewrite_code Z z_ops 1%Z true false x y with
+Theorem matmul_transpose_old_refuted_square : exists (x y : mat Z),
+  match mmt_pattern Z z_ops 1%Z true false x y, mmt_rewrite_old Z z_ops 1%Z true false x y with
   | Some P, Some R => at_ Z P 0 1 <> at_ Z R 0 1
   | _, _ => False
   end.
@@ -178,7 +178,8 @@ Theorem fused_matmul_batch_transpose : forall r tb t perm,
   let '(tb', t') := batch_rewrite r tb t in
   compose perm (eff_perm tb t (length perm)) = eff_perm tb' t' (length perm).
 Proof.
-  intros r tb t perm HN Hc. unfold batch_check in Hc.
+  intros r tb t perm HN Hc. unfold batch_check in Hc. apply andb_prop in Hc. destruct Hc as [_ Hc].
+  unfold batch_check_old in Hc.
   destruct perm as [|p0 perm0] eqn:Ep; [discriminate|]. rewrite <- Ep in *. clear Ep p0 perm0.
   set (N := length perm) in *.
   destruct (expected_perm r tb N) as [e|] eqn:Ee; [|discriminate].
@@ -208,11 +209,54 @@ Proof.
       nth_norm; split_ifs; try lia.
 Qed.
 
-(* `check` of the batch rules accepts rank-2 operands (identity perm [0,1] for FlipBatch), for which ORT's FusedMatMul
-   rejects transBatch: the side condition is insufficient for the layout constraint "rank >= 3". *)
-Theorem batch_rule_rank2_refuted : exists perm, length perm = 2 /\ batch_check FlipBatch false perm = true
+(* the batch rules fire only on operands of rank >= 3 (ORT's FusedMatMul rejects transBatch below that) ... *)
+Theorem batch_check_rank3 : forall r tb perm, batch_check r tb perm = true -> 3 <= length perm.
+Proof. intros r tb perm H. unfold batch_check in H. apply andb_prop in H. destruct H as [H _]. apply Nat.leb_le in H. exact H. Qed.
+
+(* ... which the check before the fix did not ensure: it accepted the identity perm on rank 2 and set transBatch *)
+Theorem batch_rule_rank2_old_refuted : exists perm, length perm = 2 /\ batch_check_old FlipBatch false perm = true
   /\ fst (batch_rewrite FlipBatch false false) = true.
 Proof. exists [0; 1]. repeat split. Qed.
+
+(* ---- Transpose without a perm attribute: the ONNX default reverses ALL axes --------------------------------- *)
+Lemma default_perm_head : forall m, hd 0 (default_perm (S m)) = m.
+Proof. intros. unfold default_perm. rewrite seq_S, rev_app_distr. reflexivity. Qed.
+
+(* reversing all axes is "swap the last two" for rank 2 and for no other rank >= 2 *)
+Theorem default_perm_is_swap_iff_rank2 : forall N, 2 <= N -> (default_perm N = swap_last2 N <-> N = 2).
+Proof.
+  intros N HN. split.
+  - intro H. destruct N as [|[|[|m]]]; try lia.
+    assert (Hh : hd 0 (default_perm (S (S (S m)))) = hd 0 (swap_last2 (S (S (S m))))) by (rewrite H; reflexivity).
+    rewrite default_perm_head in Hh. unfold swap_last2 in Hh.
+    replace (S (S (S m)) - 2) with (S m) in Hh by lia. simpl in Hh. discriminate.
+  - intros ->. reflexivity.
+Qed.
+
+(* whenever the simple rule's check accepts, the Transpose it absorbs really swaps the last two axes, perm given or not;
+   [r] is the rank of the transposed operand (= length of perm when perm is given, by the validity of the model) *)
+Theorem simple_check_sound : forall perm r other ftb,
+  simple_check perm (Some r) other ftb = true ->
+  (match perm with Some ((_ :: _) as p) => length p = r | _ => True end) ->
+  2 <= r /\ transpose_perm perm r = swap_last2 r /\ r <> 1 /\ other <> Some 1 /\ ftb <> Some true.
+Proof.
+  intros perm r other ftb H Hlen. unfold simple_check in H.
+  apply andb_prop in H. destruct H as [H H3]. apply andb_prop in H. destruct H as [H1 H2].
+  apply negb_true_iff, orb_false_iff in H1. destruct H1 as [H1a H1b].
+  assert (Hr1 : r <> 1) by (intro; subst; discriminate).
+  assert (Ho : other <> Some 1) by (intro; subst; discriminate).
+  assert (Hf : ftb <> Some true) by (intro; subst; discriminate).
+  destruct perm as [[|p0 p]|].
+  - simpl in H2. apply Nat.eqb_eq in H2. subst. repeat split; auto.
+  - apply andb_prop in H2. destruct H2 as [H2a H2b]. apply Nat.leb_le in H2a. apply list_eqb_eq in H2b.
+    rewrite Hlen in *. repeat split; auto.
+  - simpl in H2. apply Nat.eqb_eq in H2. subst. repeat split; auto.
+Qed.
+
+(* the check the seeded mutant C19-1 used (rank of the OTHER operand tested when perm is absent) is not sound:
+   rank-3 operand with default perm [2,1,0] is not a swap of the last two axes *)
+Example default_perm_rank3_not_swap : default_perm 3 = [2; 1; 0] /\ swap_last2 3 = [0; 2; 1].
+Proof. split; reflexivity. Qed.
 
 (* non-vacuity *)
 Example batch_example : batch_check FlipBoth false [1; 2; 3; 0] = true
